@@ -29,7 +29,9 @@ theorem createDir_propagatesX (env) : ∀ fuel d path, PropagatesX ApiX (createD
       exact thenDrop_propagatesX _ (ih _ _)
     · refine PropagatesX.bind_ioSafe (checkForExistence_ioSafe _ _ _ _) (fun r => ?_)
       split
-      · refine PropagatesX.bind_ioSafe (liftE_ioSafe _) (fun _ => ?_)
+      · split
+        · exact (ioSafe_propagates (IoSafe.fail _)).toX
+        refine PropagatesX.bind_ioSafe (liftE_ioSafe _) (fun _ => ?_)
         refine PropagatesX.bind_ioSafe (allocClusterFs_ioSafe _ _) (fun cluster => ?_)
         refine PropagatesX.bind_ioSafe (createSfnEntry_ioSafe _ _ _) (fun sfn => ?_)
         refine PropagatesX.attemptThenX (writeEntry_apiX _ _ _) ?_ ?_ ?_
